@@ -142,8 +142,18 @@ def run(chk: core.Check, tier: str, seed: int) -> None:
                   "$..*", "$[?@[0] == @[1]]", "$[?value(@.p) != $[0]]", "$[?count(@.*) == 3]"):
             recs.append(impl.rec_total(jp, q, doc))
             recs.append(impl.rec_total(jp, q, doc, paths=True))
-    # the nondeterministic mode is total as well
+    # environments configured with an integer range far beyond the host's machine words (2^70): indices, slice bounds and steps
+    # around 2^31, 2^63, 2^64 - on arrays, objects, strings - evaluate or raise a JSONPathError like any other
     from .. import probes  # noqa: PLC0415
+    for nd_flag in (False, True):
+        wide = probes.make_env(jp, [], [], lo=-(2 ** 70), hi=2 ** 70, nondeterministic=nd_flag)
+        big = [2 ** 31 - 1, 2 ** 31, 2 ** 63 - 1, 2 ** 63, 2 ** 64, 2 ** 64 + 1, 2 ** 70]
+        for b in big:
+            for q in (f"$[{b}]", f"$[-{b}]", f"$[{b}:]", f"$[:{b}]", f"$[::{b}]", f"$[::-{b}]", f"$[-{b}:]", f"$[:-{b}]", f"$[1:{b}:2]", f"$[{b}:0:-1]",
+                      f"$..[{b}:]", f"$[?@[:{b}]]", f"$[0, {b}, 1:{b}]", f"$[?count(@[::{b}]) == 1]"):
+                for doc in ([1, 2, 3], [[1, 2], "ab", {"a": 1}], {"a": [1, 2, 3]}, "abc", []):
+                    recs.append(impl.rec_total(jp, q, doc, env=wide, paths=True))
+    # the nondeterministic mode is total as well
     nd = probes.make_env(jp, [], [], nondeterministic=True)
     for q in corpus.SEEDS + ["$..[?@]", "$[?@.a]", "$..[?@.a == 1]", "$.*[?@]", "$[?count(@[?@]) > 0]", "$..*", "$[*]", "$..[*, ?@]"]:
         for doc in ROOTS:
